@@ -379,16 +379,16 @@ theorem normalizeOpen_chainF : ∀ (outer : List Frame) (G : List Node) (os oe n
     chain of `from`'s ancestors down to the close level around the closed levels, the filling of the close level and
     the re-opened levels -/
 theorem closeFit_delete_eq (S : Schema) {doc : Node} {rf : RPos} (tgt : RPos) (fr0 : List FItem)
-    (lv : CloseLevel) (fills : List (List Node)) (ro : List (Frame × List Node))
+    (lv : CloseLevel) (fills : List (List Node)) (ro : List (Frame × List Node)) (X0 : List Node)
     (hlen : fr0.length = rf.depth + 1) (hsome : ∀ it ∈ fr0, ∃ q, it.st = some q)
     (hlv : findCloseLevel S doc tgt fr0 = .ok (some lv)) (hc : lv.depth ≤ rf.depth)
     (hfl : fills.length = rf.depth - lv.depth)
     (hfills : ∀ p ∈ (fr0.drop (lv.depth + 1)).zip fills, FillRel S p.1 p.2)
     (hfit : textFreeKids lv.fit = true)
     (hro : ro.length = lv.move.depth - lv.depth) (hroAll : ReopenAll S lv.move (lv.depth + 1) ro) :
-    closeFit S doc tgt fr0 (chainF (framesFrom rf 0 rf.depth) [])
+    closeFit S doc tgt fr0 (chainF (framesFrom rf 0 rf.depth) X0)
       = .ok (some (lv.move, chainF (framesFrom rf 0 lv.depth)
-          (leftS (framesFrom rf lv.depth (rf.depth - lv.depth)) fills [] ++ lv.fit
+          (leftS (framesFrom rf lv.depth (rf.depth - lv.depth)) fills X0 ++ lv.fit
             ++ rightS (ro.map (·.1)) (ro.map (·.2))))) := by
   unfold closeFit
   rw [FM.bind_eq hlv]
@@ -399,7 +399,7 @@ theorem closeFit_delete_eq (S : Schema) {doc : Node} {rf : RPos} (tgt : RPos) (f
     have := framesFrom_add rf 0 lv.depth (rf.depth - lv.depth)
     rwa [show lv.depth + (rf.depth - lv.depth) = rf.depth by omega, Nat.zero_add] at this
   have hcm := closeMany_eq S (rf.depth - lv.depth) (fr0.drop (lv.depth + 1)) fills
-    (framesFrom rf lv.depth (rf.depth - lv.depth)) (fr0.take (lv.depth + 1)) (framesFrom rf 0 lv.depth) []
+    (framesFrom rf lv.depth (rf.depth - lv.depth)) (fr0.take (lv.depth + 1)) (framesFrom rf 0 lv.depth) X0
     (by simp [hlen]) hfl (framesFrom_length _ _ _) (by simp [hlen, framesFrom_length]; omega) hfills
   rw [← hsplit, ← chainF_append, ← hfr, show rf.depth - lv.depth = fr0.length - 1 - lv.depth by omega] at hcm
   rw [FM.bind_eq hcm]
@@ -407,14 +407,14 @@ theorem closeFit_delete_eq (S : Schema) {doc : Node} {rf : RPos} (tgt : RPos) (f
   -- the filling of the close level
   have hstep2 : (if (!lv.fit.isEmpty) = true then
         addToFragment (chainF (framesFrom rf 0 lv.depth)
-          (leftS (framesFrom rf lv.depth (fr0.length - 1 - lv.depth)) fills [])) lv.depth lv.fit
+          (leftS (framesFrom rf lv.depth (fr0.length - 1 - lv.depth)) fills X0)) lv.depth lv.fit
       else pure (chainF (framesFrom rf 0 lv.depth)
-          (leftS (framesFrom rf lv.depth (fr0.length - 1 - lv.depth)) fills [])))
+          (leftS (framesFrom rf lv.depth (fr0.length - 1 - lv.depth)) fills X0)))
       = .ok (chainF (framesFrom rf 0 lv.depth)
-          (leftS (framesFrom rf lv.depth (fr0.length - 1 - lv.depth)) fills [] ++ lv.fit)) := by
+          (leftS (framesFrom rf lv.depth (fr0.length - 1 - lv.depth)) fills X0 ++ lv.fit)) := by
     split
     · have := addToFragment_chainF (framesFrom rf 0 lv.depth)
-        (leftS (framesFrom rf lv.depth (fr0.length - 1 - lv.depth)) fills []) 0 lv.fit
+        (leftS (framesFrom rf lv.depth (fr0.length - 1 - lv.depth)) fills X0) 0 lv.fit
       rw [framesFrom_length, Nat.add_zero] at this
       rw [this]
       simp only [addToFragment, bind, Except.bind, pure, Except.pure]
@@ -434,7 +434,7 @@ theorem closeFit_delete_eq (S : Schema) {doc : Node} {rf : RPos} (tgt : RPos) (f
     rw [List.getLast?_eq_getElem?, List.length_take, Nat.min_eq_left (by omega), Nat.add_sub_cancel,
       List.getElem?_take, if_pos (by omega), List.getElem?_eq_getElem hl]
   obtain ⟨fr', hfr'⟩ := reopen_eq S lv.move ro (chainF (framesFrom rf 0 lv.depth)) lv.depth
-    (leftS (framesFrom rf lv.depth (fr0.length - 1 - lv.depth)) fills [] ++ lv.fit) (fr0.take (lv.depth + 1))
+    (leftS (framesFrom rf lv.depth (fr0.length - 1 - lv.depth)) fills X0 ++ lv.fit) (fr0.take (lv.depth + 1))
     (lv.depth + 1) hctx (by simp [hlen]; omega) hlast hroAll
   rw [hro] at hfr'
   rw [FM.bind_eq hfr']
